@@ -42,7 +42,8 @@ RULE = ("histories = one Model; top-level creation/removal/reference keeping of 
         "do nothing / remove self / remove an earlier or later or dead agent (reference kept or not) / create agents / "
         "drop or take references / raise / start a nested do, shuffle_do or map on any set (whose callbacks run a second script "
         "and may raise too); 45% of the activations stay inside the statement's own quantifier (no raise, no nesting); "
-        "set.shuffle().do(...) is driven beside shuffle_do; ALL one-act scripts over sets of size <= 3 (4 thorough, and 4 in the enumerator) are run first; "
+        "set.shuffle().do(...), copies nothing else refers to (copy.copy(set).do, set.select().do), groupby(result_type='list') and sets "
+        "mixing agents of a second model are driven beside shuffle_do; ALL one-act scripts over sets of size <= 3 (4 thorough, and 4 in the enumerator) are run first; "
         "non-trivial = an activation that called >= 2 agents; distinct = SHA1 of the history")
 TRUSTED_BASE = [
     "Coq 8.16.1 kernel (coqc); vm_compute used for the non-vacuity examples and for evaluating the model in the correspondence",
@@ -60,8 +61,10 @@ TRUSTED_BASE = [
     "Uint63 primitive hash only in scratch Cases files, never under a theorem",
 ]
 ASSUMPTIONS = [
-    "callbacks do not add/discard members of model-owned sets directly; nesting depth of activations is at most 2; "
-    "an exception raised by a callback is not caught inside callbacks (it leaves every running activation)",
+    "callbacks do not add/discard members of model-owned sets directly; activations nest to any depth in the model (up to 5 levels "
+    "generated); an exception raised by a callback leaves every running activation unless a callback catches it around a nested "
+    "activation (try: set.do(...) except Exception: pass)",
+    "sets mixing agents of two models are checked by the oracle only (the Gallina model has one registry)",
     "no reference cycles through agents (a cycle counts as 'the program still holds a reference')",
     "agents removed from the model while the program keeps a reference MAY be called (the statement allows it); the model says they are",
 ]
